@@ -115,7 +115,18 @@ _GLOBALS = None
 
 
 def _mutable(x):
-    return isinstance(x, (list, dict, set, bytearray))
+    import collections
+    import io
+    return isinstance(x, (list, dict, set, bytearray, io.BytesIO, collections.deque)) or \
+        (isinstance(x, np.ndarray) and x.flags.writeable)
+
+
+def _snap(x):
+    import copy
+    import io
+    if isinstance(x, io.BytesIO):
+        return (x.getvalue(), x.tell())
+    return copy.deepcopy(x)
 
 
 def snapshot_globals():
@@ -138,7 +149,7 @@ def snapshot_globals():
                 if an.startswith("__") and an.endswith("__") and not callable(av):
                     continue
                 if _mutable(av):
-                    snap.append((av, copy.deepcopy(av)))
+                    snap.append((av, _snap(av)))
                 fn = av.__func__ if isinstance(av, (staticmethod, classmethod)) else av
                 if isinstance(fn, property):
                     fns = [f for f in (fn.fget, fn.fset) if f is not None]
@@ -148,10 +159,10 @@ def snapshot_globals():
                     f = inspect.unwrap(f) if callable(f) else f
                     for d in (getattr(f, "__defaults__", None) or ()):
                         if _mutable(d):
-                            snap.append((d, copy.deepcopy(d)))
+                            snap.append((d, _snap(d)))
                     for d in (getattr(f, "__kwdefaults__", None) or {}).values():
                         if _mutable(d):
-                            snap.append((d, copy.deepcopy(d)))
+                            snap.append((d, _snap(d)))
     _GLOBALS = snap
     return len(snap)
 
@@ -190,6 +201,17 @@ def reset_globals():
             live.update(saved)
         elif isinstance(live, bytearray):
             live[:] = saved
+        elif isinstance(live, np.ndarray):
+            if live.shape == saved.shape:
+                live[...] = saved
+        elif hasattr(live, "getvalue") and isinstance(saved, tuple):  # io.BytesIO
+            live.seek(0)
+            live.truncate(0)
+            live.write(saved[0])
+            live.seek(saved[1])
+        elif hasattr(live, "appendleft"):  # deque
+            live.clear()
+            live.extend(saved)
 
 
 # ---------------------------------------------------------------------------
